@@ -251,7 +251,8 @@ def run_case(case):
                     rec.skip = {ghost}          # from now on nobody listens to this type
             try:
                 if cmd == "init":
-                    h.initialize()
+                    # (in a quarter of the sequences every later initialize gets the very same replication object)
+                    h.initialize(same_object=(hsh >> 5) % 4 == 0)
                     model.on_exec = lambda m, seq, node: rec.log.append(
                         ["EXEC", enc_obs(m.simulator.simulator_time), seq])
                     rec.hooks.pop("WARMUP", None)
